@@ -314,7 +314,7 @@ def check(ctx):
         ops |= replay_graph(ctx, name, g, 2 if "2fields" in name else 1,
                             None if (thorough or len(g.edges) < 60000) else 3)
     if {"call", "cache_clear", "k_set", "k_del"} - ops:
-        raise core.Machinery("vacuity: operations never replayed: %s" % ({"call", "cache_clear", "k_set", "k_del"} - ops))
+        core.vacuity("operations never replayed: %s" % ({"call", "cache_clear", "k_set", "k_del"} - ops))
     # (3) deep random behaviours, 2 fields, larger values
     replay_sim(ctx, "simulate-nf2", consts(3, 2, 30), 3000 if thorough else 500, 40)
     replay_sim(ctx, "simulate-nf1", consts(3, 1, 30), 3000 if thorough else 300, 40)
@@ -423,7 +423,7 @@ def check_threads(ctx, thorough):
         ctx.disagree("threads:deadlock", "the two-thread execution did not finish: %s" % t["deadlock"], t)
     traces = [t for t in traces if "deadlock" not in t]
     if sum(1 for t in traces if t["plan"]) < 10:
-        raise core.Machinery("vacuity: hardly any pre-empted schedule")
+        core.vacuity("hardly any pre-empted schedule")
     d = tlc.scratch()
     tf = os.path.join(d, "traces.ndjson")
     with open(tf, "w") as f:
